@@ -8,7 +8,8 @@
        K  = 2:  additionally b with every PAIR of dimensions set to every pair of values of
                 their SMALL domains (pairwise cover around b)
    Dimensions: subj, from, to, cc, bcc, rt, date, mid, irt, bs (structure), bp (plain charset x
-   CTE), bh (html charset x CTE), pf, bx (further plain-text body candidates), att1, att2, nest, ser.
+   CTE), bh (html charset x CTE), pf, bx (further plain-text body candidates), att1, att2, att3, nest, ser;
+   + Mix: up to three attachments, supported and unsupported ones in every order.
    The attachment dimension is itself a cover (AttVals); messages that Mail!ValidBody / ValidAtt
    exclude are dropped.                                  *)
 EXTENDS Mail
@@ -49,7 +50,7 @@ AttSmall == { BaseAtt,
               [BaseAtt EXCEPT !.fn = "none", !.mt = "octet", !.pl = "bin"] }
 
 Dims == {"subj", "from", "to", "cc", "bcc", "rt", "date", "mid", "irt", "bs", "bp", "bh", "pf", "bx",
-         "att1", "att2", "nest", "ser"}
+         "att1", "att2", "att3", "nest", "ser"}
 
 Full(d) ==
     CASE d = "subj" -> { [k |-> "none", e |-> "raw"] } \cup [k : TextKinds, e : Encs]
@@ -64,6 +65,7 @@ Full(d) ==
       [] d = "pf"   -> BOOLEAN
       [] d = "bx"   -> Extras
       [] d \in {"att1", "att2"} -> {NoAtt} \cup AttVals
+      [] d = "att3" -> {NoAtt} \cup AttSmall
       [] d = "nest" -> BOOLEAN
       [] d = "ser"  -> Sers
 
@@ -82,7 +84,7 @@ Small(d) ==
                                  [c |-> "latin1", e |-> "qp"], [c |-> "koi8r", e |-> "7bit"] }
       [] d = "pf"   -> BOOLEAN
       [] d = "bx"   -> Extras
-      [] d \in {"att1", "att2"} -> {NoAtt} \cup AttSmall
+      [] d \in {"att1", "att2", "att3"} -> {NoAtt} \cup AttSmall
       [] d = "nest" -> BOOLEAN
       [] d = "ser"  -> Sers
 
@@ -103,6 +105,7 @@ With(b, d, x) ==
       [] d = "bx"   -> [b EXCEPT !.body.x = x]
       [] d = "att1" -> [b EXCEPT !.att1 = x]
       [] d = "att2" -> [b EXCEPT !.att2 = x]
+      [] d = "att3" -> [b EXCEPT !.att3 = x]
       [] d = "nest" -> [b EXCEPT !.nest = x]
       [] d = "ser"  -> [b EXCEPT !.ser = x]
 
@@ -111,7 +114,7 @@ BaseSimple ==
       cc |-> <<>>, bcc |-> <<>>, rt |-> <<>>,
       date |-> [p |-> TRUE, z |-> "utc", wd |-> TRUE], mid |-> "plain", irt |-> "none",
       body |-> [s |-> "plain", pc |-> "ascii", pe |-> "7bit", hc |-> "ascii", he |-> "7bit", pf |-> FALSE, x |-> "none"],
-      att1 |-> NoAtt, att2 |-> NoAtt, nest |-> FALSE, ser |-> "hand" ]
+      att1 |-> NoAtt, att2 |-> NoAtt, att3 |-> NoAtt, nest |-> FALSE, ser |-> "hand" ]
 
 BaseRich ==
     [ subj |-> [k |-> "utf8", e |-> "b"], from |-> <<"encq">>, to |-> <<"quoted", "encb">>,
@@ -119,7 +122,7 @@ BaseRich ==
       date |-> [p |-> TRUE, z |-> "east", wd |-> TRUE], mid |-> "plain", irt |-> "plain",
       body |-> [s |-> "altrel", pc |-> "utf8", pe |-> "qp", hc |-> "latin1", he |-> "base64", pf |-> TRUE, x |-> "none"],
       att1 |-> BaseAtt,
-      att2 |-> [BaseAtt EXCEPT !.fn = "rfc2231", !.mt = "invented", !.pl = "bin"],
+      att2 |-> [BaseAtt EXCEPT !.fn = "rfc2231", !.mt = "invented", !.pl = "bin"], att3 |-> NoAtt,
       nest |-> FALSE, ser |-> "handcrlf" ]
 
 Bases == {BaseSimple, BaseRich}
@@ -132,8 +135,15 @@ One(b) == UNION { { With(b, d, x) : x \in Full(d) } : d \in Dims }
 Two(b) == UNION { UNION { { With(With(b, d1, x), d2, y) : x \in Small(d1), y \in Small(d2) }
                           : d2 \in Dims \ {d1} } : d1 \in Dims }
 
-ValidMsg(c) == ValidBody(c.body) /\ ValidAtt(c.att1) /\ ValidAtt(c.att2)
-Cases == { c \in UNION { One(b) \cup (IF K >= 2 THEN Two(b) ELSE {}) : b \in Bases } : ValidMsg(c) }
+ValidMsg(c) == ValidBody(c.body) /\ ValidAtt(c.att1) /\ ValidAtt(c.att2) /\ ValidAtt(c.att3)
+\* supported and unsupported attachments in every order: (u, s), (s, u), (s, u, s), (u, s, u), ...
+SuppMix == { BaseAtt, [BaseAtt EXCEPT !.pl = "docx", !.fn = "rfc2231"], [BaseAtt EXCEPT !.pl = "zip", !.mt = "alias", !.nx = "noext"] }
+UnsuppMix == { [BaseAtt EXCEPT !.pl = "bin", !.mt = "octet"], [BaseAtt EXCEPT !.pl = "pdf", !.mt = "plausible"],
+               [BaseAtt EXCEPT !.pl = "html", !.mt = "invented", !.fn = "none"] }
+Mix(b) == { [b EXCEPT !.att1 = x, !.att2 = y, !.att3 = z] :
+              x \in SuppMix \cup UnsuppMix, y \in SuppMix \cup UnsuppMix, z \in {NoAtt} \cup SuppMix \cup UnsuppMix }
+
+Cases == { c \in UNION { One(b) \cup Mix(b) \cup (IF K >= 2 THEN Two(b) ELSE {}) : b \in Bases } : ValidMsg(c) }
 
 Init == m \in Cases
 Next == UNCHANGED m
